@@ -133,6 +133,25 @@ theorem prefix_tighter_than_binary (dbg : Bool) (pre : List UnOp) (n : Nat) (ps 
   · have h := (pratt_correct dbg y [(o, ⟨pre, n, ps⟩)]).1 _ (reference_single _ o _)
     simpa [render, renderTail, Operand.toks, Operand.tree] using h
 
+/-- T2b-3 (tie of the hand-written `negation` / `access` to the source). The
+    skeleton GENERATED from `Parser::negation` and `Parser::access` is the one
+    the model follows: each prefix branch takes its token, calls `negation`
+    ITSELF on what follows — and nothing else, under no condition (the
+    translator fails on a conditional, loop, early exit or macro inside a prefix
+    branch) — and wraps the result in `Not` / `Negate`; without a prefix operator
+    `negation` is `access`; `access` parses one `atom` and then applies, in a
+    loop, `?` (`QuestionMark`), an argument list (`FunctionCall`) and `.name`
+    (`Access`) to the expression built so far. -/
+theorem negation_access_skeleton :
+    prefixTokens = [("Bang", "Not"), ("Hyphen", "Negate")] ∧
+    prefixOperand = ["negation", "negation"] ∧
+    negationElse = "access" ∧
+    accessOperand = "atom" ∧
+    accessForms = [("QuestionMark", "QuestionMark"), ("RoundLeft", "FunctionCall"), ("Period", "Access")] :=
+  ⟨rfl, rfl, rfl, rfl, rfl⟩
+
+example : prefixOperand.length = prefixTokens.length ∧ accessForms.length = 3 := ⟨rfl, rfl⟩
+
 /-- non-vacuity, on the seeded witness: `- lit . pow ( … )` is
     `Negate (call (field lit pow) …)`, not `call (field (Negate lit) pow) …`;
     `1.0 + - lit . abs ( )`; `! a . b ?`. -/
